@@ -37,9 +37,22 @@ func (p cParam) tok() string {
 	case "s":
 		return "s:" + proto.Enc(p.s)
 	case "c":
-		return "c:" + proto.Enc(casbin.NewEnforceContext("").GetCacheKey())
+		// the key the model files the context under is written out here, field by field — not asked of the
+		// implementation, whose key function is part of what is checked
+		ctx := p.ctx()
+		return "c:" + proto.Enc("EnforceContext{"+ctx.RType+"-"+ctx.PType+"-"+ctx.EType+"-"+ctx.MType+"}")
 	}
 	return "x"
+}
+
+// ctx: the context a "c" parameter stands for: s == "" the default definitions, otherwise the effect named s
+// (the model of newC14Case defines e and e2, which decide differently when nothing matches)
+func (p cParam) ctx() casbin.EnforceContext {
+	ctx := casbin.NewEnforceContext("")
+	if p.s != "" {
+		ctx.EType = p.s
+	}
+	return ctx
 }
 
 func (p cParam) goVal() interface{} {
@@ -47,7 +60,7 @@ func (p cParam) goVal() interface{} {
 	case "s":
 		return p.s
 	case "c":
-		return casbin.NewEnforceContext("")
+		return p.ctx()
 	}
 	return 5
 }
@@ -95,6 +108,7 @@ var c14FailingWatcher bool
 func newC14Case(synced bool) *c14Case {
 	a := mem.New()
 	m := mustModel(strings.Replace(rbacText, "g(r.sub, p.sub)", "r.sub == p.sub", 1))
+	m.AddDef("e", "e2", "!some(where (p.eft == deny))") // selected by a request's EnforceContext: allows what matches nothing
 	if synced {
 		e, err := casbin.NewSyncedCachedEnforcer(m, a)
 		if err != nil {
@@ -179,6 +193,7 @@ func c14Keys(c *Ctx) {
 		}
 	}
 	check([]cParam{{"c", ""}, {"s", "a"}})
+	check([]cParam{{"c", "e2"}, {"s", "a"}})
 	check([]cParam{{"s", casbin.NewEnforceContext("").GetCacheKey()}, {"s", "a"}})
 	check([]cParam{{"x", ""}, {"s", "a"}})
 }
@@ -395,7 +410,7 @@ func c14Random(c *Ctx, synced bool, length int, fields []string, rules [][]strin
 		}
 		switch rng.Intn(8) {
 		case 0:
-			ps = append([]cParam{{"c", ""}}, ps...)
+			ps = append([]cParam{{"c", []string{"", "e2"}[rng.Intn(2)]}}, ps...)
 		case 1:
 			ps[rng.Intn(n)] = cParam{"x", ""}
 		case 2:
